@@ -42,10 +42,10 @@ COMPONENTS = {
 PROGRAMS = ["idle", "recv", "busy", "sleep", "swallow", "threads"]
 
 
-def prog_ops(rng, kind, label, actors, gwi):
+def prog_ops(rng, kind, label, actors, gwi, linger_ok=False):
     """ops of the remote body for one worker; first op announces that the body runs"""
     ops = [["send", label, f"{label}:w2i:x:started", ["none"]]]
-    if rng.random() < 0.15:
+    if linger_ok and rng.random() < 0.15:
         # the interpreter will not exit by itself once the connection is closed (non-daemon thread, atexit handler)
         ops.insert(0, ["linger", 10000.0])
     if kind == "recv":
@@ -115,7 +115,7 @@ def gen(rng, tier):
         label = f"c{gi}"
         aid = len(actors)
         actors.append({"side": "w", "gw": gi, "chan": label, "ops": []})
-        actors[aid]["ops"] = prog_ops(rng, kind, label, actors, gi)
+        actors[aid]["ops"] = prog_ops(rng, kind, label, actors, gi, linger_ok=True)
         main.append(["exec", label, aid, gi])
         main.append(["recv", label])
     # optional: a user task blocked in send to a worker that gets stopped
